@@ -168,8 +168,9 @@ double MetaOptimizer::doStep()
         stepWise = true;
     }
   }
-  // One optimizer only, run until its own convergence: nothing more to do.
-  tolIsReached_ = (tolTest == 1 && !stepWise);
+  // One optimizer only, run until its own convergence at the final precision
+  // (the first n - 1 steps use coarser tolerances): nothing more to do.
+  tolIsReached_ = (tolTest == 1 && !stepWise && stepCount_ >= n_);
 
   return getFunction()->getValue();
 }
